@@ -268,7 +268,16 @@ func runProperty(eng *Engine, verifDir, prop, tier string, updateLedger, verbose
 			knownLines = append(knownLines, fmt.Sprintf("KNOWN-FINDING: property=%s obligation=%s witness=%q %s", prop, n, kf.Witness, kf.What))
 			continue
 		}
-		if inLedger[n] || st == "sat" {
+		cand := false
+		for _, o := range g.Instances {
+			if o.Candidate {
+				cand = true
+			}
+		}
+		// in the ledger: a violation in any case. New obligation (code that did not exist on the
+		// unchanged tree): a violation only if the solver refutes it (sat) or it fails with a candidate
+		// model AND the replay harness reproduces a failure on the real code.
+		if inLedger[n] || st == "sat" || cand {
 			// violation: replay
 			rp := writeReplay(eng, verifDir, prop, g, dump)
 			line := fmt.Sprintf("VIOLATION property=%s replay=%s", prop, rp.Path)
